@@ -189,8 +189,12 @@ Definition instantiate (c : pctx) (re target : el) : res el * lst :=
           let inst := with_cls N inst (cl_extend (ecls N inst) (ecls N re)) in
           let inst := match ref_id with Some r => add_class N inst r | None => inst end in
           let inst := if String.eqb (ename N inst) "symbol" then with_attrs_from (new_el N "g" []) inst else inst in
+          (* resolve_position starts with another eval_attributes of the reuse element (values that still hold variables after
+             the first evaluation are expanded here) *)
+          match eval_attributes N ES eva re c2 with
+          | (Ok re1, c2) =>
           let em2 := emap_of N ES (px_l N ES c2) in
-          match resolve_pos em2 re with
+          match resolve_pos em2 re1 with
           | Ok re2 =>
               let rf := match eget N re "href" with Some h => parse_elref h | None => None end in
               match (match rf with Some r => get_element N em2 r | None => None end) with
@@ -210,6 +214,8 @@ Definition instantiate (c : pctx) (re target : el) : res el * lst :=
                   (Ok (with_attrs N inst (set_position_attrs N strp fstr fdisplay p (ename N inst) (eattrs N inst))), px_l N ES c2)
               end
           | Err k => (Err k, px_l N ES c2) | Panic s => (Panic s, px_l N ES c2) | OutOfFuel => (OutOfFuel, px_l N ES c2)
+          end
+          | (Err k, c2) => (Err k, px_l N ES c2) | (Panic s, c2) => (Panic s, px_l N ES c2) | (OutOfFuel, c2) => (OutOfFuel, px_l N ES c2)
           end
       | Err k => (Err k, px_l N ES c1) | Panic s => (Panic s, px_l N ES c1) | OutOfFuel => (OutOfFuel, px_l N ES c1)
       end
